@@ -54,7 +54,8 @@ def gen_cases(rng, n, tier):
         out.append(dict(kind='H', cfg=dict(spcfgs[(i * 5) % len(spcfgs)]), prog=prog, twin_only=True))
     # objects the flush itself deletes (delete-orphan children, cascades) that carry an unloaded (deferred) column
     for i in range(max(10, n // 12)):
-        out.append(dict(kind='O', cfg=dict(shape='orphan', strategy='validity' if i % 2 else 'subquery'), prog=gen_orphan_prog(rng)))
+        out.append(dict(kind='O', cfg=dict(shape='orphan', strategy='validity' if i % 2 else 'subquery', joined=(i % 3 == 0)),
+                        prog=gen_orphan_prog(rng)))
     for i in range(max(10, n // 10)):
         cfg = dict(B.all_cfgs('blog')[i % 32])
         cfg['twin'] = False
@@ -97,6 +98,21 @@ def corpus():
             dict(kind='H', cfg=dict(cfg, strategy='subquery'), twin_only=True,
                  prog=[['add', 0, 1, {'a': 1}], ['add', 0, 2, {'a': 1}], ['commit'], ['set', 0, 1, {'a': 2}], ['flush'], ['sp_begin'],
                        ['set', 0, 2, {'a': 2}], ['flush'], ['sp_rollback'], ['set', 0, 2, {'a': 3}], ['flush'], ['commit']]),
+            # an association table without a primary key: two links in one transaction (open finding)
+            dict(kind='O', cfg=dict(shape='orphan', strategy='validity', keyless=True),
+                 prog=[['addp', 1], ['addc', 1, 1], ['addc', 2, 1], ['commit'], ['mark', 1, 1], ['mark', 1, 2], ['commit'], ['commit']]),
+            dict(kind='O', cfg=dict(shape='orphan', strategy='subquery', keyless=True),
+                 prog=[['addp', 1], ['addc', 1, 1], ['commit'], ['mark', 1, 1], ['commit'], ['setp', 1, 2], ['commit']]),
+            # a delete-orphan child of a joined-table subclass, loaded through the base class
+            dict(kind='O', cfg=dict(shape='orphan', strategy='validity', joined=True),
+                 prog=[['addp', 1], ['addc', 1, 1], ['commit'], ['orphan', 1], ['commit'], ['commit']]),
+            # a Core statement on the association table that names only one of its columns, after a versioned flush
+            dict(kind='H', cfg=cfg, twin_only=True,
+                 prog=[['add', 0, 1, {'a': 1}], ['add', 2, 1, {'a': 1}], ['link', 1, 1], ['commit'], ['set', 0, 1, {'a': 2}], ['flush'],
+                       ['rawpartial', 1], ['commit'], ['set', 0, 1, {'a': 3}], ['commit']]),
+            dict(kind='H', cfg=dict(cfg, strategy='subquery'), twin_only=True,
+                 prog=[['add', 0, 1, {'a': 1}], ['add', 2, 1, {'a': 1}], ['add', 2, 2, {'a': 1}], ['link', 1, 1], ['link', 1, 2], ['commit'],
+                       ['set', 2, 1, {'a': 2}], ['flush'], ['rawpartial', 1], ['commit']]),
             dict(kind='H', cfg=cfg, prog=[['add', 0, 1, {'a': 1}], ['add', 2, 1, {'a': 1}], ['commit'], ['rawlink', 1, 1], ['commit']]),
             dict(kind='H', cfg=cfg, prog=[['add', 0, 1, {'a': 1}], ['add', 2, 1, {'a': 1}], ['link', 1, 1], ['flush'], ['unlink', 1, 1], ['commit']]),
             dict(kind='H', cfg=cfg, prog=[['add', 0, 1, {'a': 1}], ['add', 2, 1, {'a': 1}], ['flush'], ['rawlink_inline', 1, 1], ['add', 0, 2, {'a': 1}], ['commit']]),
@@ -122,6 +138,21 @@ def _class_change(case):
 
 
 def classify(case, obs):
+    if case.get('kind') == 'O' and case['cfg'].get('keyless'):
+        # open finding: the version table of an association table without a primary key has the transaction id as its
+        # only key: the second link written in a transaction fails with IntegrityError - only when versioned
+        a, b = obs.get('outcomes') or [], obs.get('plain_outcomes') or []
+        marks = 0
+        for op, x, y in zip(case['prog'], a, b):
+            if op[0] == 'mark' and y == 'ok':
+                marks += 1
+            if op[0] == 'commit':
+                if x == 'error:IntegrityError' and y == 'ok' and marks >= 2:
+                    return 'F-C07-keyless-association-table'
+                marks = 0
+            if op[0] == 'flush' and x == 'error:IntegrityError' and y == 'ok' and marks >= 2:
+                return 'F-C07-keyless-association-table'
+        return None
     if case.get('kind') == 'H' and _class_change(case):
         a, b = obs.get('outcomes') or [], obs.get('plain_outcomes') or []
         if any(x == 'error:IntegrityError' and y == 'ok' for x, y in zip(a, b)):
@@ -227,14 +258,32 @@ def build_orphan(cfg):
         Parent = type('Parent', (Base,), dict(
             __tablename__='parent', id=sa.Column(sa.Integer, primary_key=True, autoincrement=False),
             a=sa.Column(sa.Integer), **v))
+        poly = dict(kind=sa.Column(sa.Unicode(10)),
+                    __mapper_args__={'polymorphic_on': 'kind', 'polymorphic_identity': 'child'}) if cfg.get('joined') else {}
         Child = type('Child', (Base,), dict(
             __tablename__='child', id=sa.Column(sa.Integer, primary_key=True, autoincrement=False),
             a=sa.Column(sa.Integer), body=sa.orm.deferred(sa.Column(sa.Integer)),
             parent_id=sa.Column(sa.Integer, sa.ForeignKey('parent.id')),
             parent=sa.orm.relationship(Parent, backref=sa.orm.backref('children', cascade='all, delete-orphan')),
-            **({'__versioned__': dict(opts)} if opts is not None else {})))
+            **dict(poly, **({'__versioned__': dict(opts)} if opts is not None else {}))))
+        env.sub = None
+        if cfg.get('joined'):
+            # joined: the children are objects of a joined-table subclass; loaded through the base class (the parent's
+            # collection, session.get(Child, k)) the columns of their own table stay unloaded
+            env.sub = type('SubChild', (Child,), dict(
+                __tablename__='subchild', id=sa.Column(sa.Integer, sa.ForeignKey('child.id'), primary_key=True, autoincrement=False),
+                pages=sa.Column(sa.Integer), __mapper_args__={'polymorphic_identity': 'sub'},
+                **({'__versioned__': dict(opts)} if opts is not None else {})))
         env.classes = [Parent, Child]
         env.assoc = []
+        env.marks = None
+        if cfg.get('keyless'):
+            # keyless: a many-to-many association table declared WITHOUT a primary key (two foreign-key columns, as in
+            # many tutorials)
+            env.marks = sa.Table('parent_mark', Base.metadata,
+                                 sa.Column('parent_id', sa.Integer, sa.ForeignKey('parent.id')),
+                                 sa.Column('child_id', sa.Integer, sa.ForeignKey('child.id')))
+            Parent.marked = sa.orm.relationship(Child, secondary=env.marks, backref='marked_by')
     return build
 
 
@@ -285,7 +334,8 @@ def _run_orphan(env, prog):
                     if p_ is None or get(Child, op[1]) is not None:
                         outcomes.append('skip')
                         continue
-                    pending[(Child, op[1])] = Child(id=op[1], a=0, body=op[1] * 10)
+                    pending[(Child, op[1])] = (env.sub(id=op[1], a=0, body=op[1] * 10, pages=op[1] + 100) if env.sub is not None
+                                               else Child(id=op[1], a=0, body=op[1] * 10))
                     p_.children.append(pending[(Child, op[1])])
                 elif k == 'orphan':
                     c_ = s.get(Child, op[1])                       # body stays unloaded (deferred)
@@ -305,6 +355,12 @@ def _run_orphan(env, prog):
                         outcomes.append('skip')
                         continue
                     s.delete(o)
+                elif k == 'mark':
+                    p_, c_ = get(Parent, op[1]), get(Child, op[2])
+                    if env.marks is None or p_ is None or c_ is None or c_ in p_.marked:
+                        outcomes.append('skip')
+                        continue
+                    p_.marked.append(c_)
                 elif k == 'flush':
                     s.flush()
                     pending.clear()
@@ -321,6 +377,10 @@ def _run_orphan(env, prog):
         conn = s.connection()
         live = [[0] + list(r) for r in conn.execute(sa.select(Parent.__table__).order_by(Parent.__table__.c.id))] + \
                [[1] + list(r) for r in conn.execute(sa.select(Child.__table__).order_by(Child.__table__.c.id))]
+        if env.sub is not None:
+            live += [[2] + list(r) for r in conn.execute(sa.select(env.sub.__table__).order_by(env.sub.__table__.c.id))]
+        if env.marks is not None:
+            live += sorted([3] + list(r) for r in conn.execute(sa.select(env.marks)))
         s.rollback()
         return outcomes, live
     finally:
